@@ -58,6 +58,7 @@ func Corpus() []Doc {
 		}
 		return nil
 	})
+	out = append(out, Extra...)
 	sort.Slice(out, func(i, j int) bool { return out[i].Name < out[j].Name })
 	return out
 }
